@@ -1,6 +1,7 @@
-\* prints the (format, value) pairs of the quick model: they are replayed into the library
+\* the machine of the quick model without the invariants: rule coverage (every R* action must be taken) and one REPLAY
+\* line per (format, value) pair visited: the pairs are replayed into the library
 CONSTANTS I = 4 F = 2 KMax = 4 Block = 20
-CONSTANTS Catalogue <- MCCatalogue Starts <- QuickStarts MCDev = {}
-SPECIFICATION SpecR
+CONSTANTS Catalogue <- MCCatalogue Starts <- RuleStarts MCDev = {}
+SPECIFICATION Spec2
 INVARIANTS EmitReplay
 CHECK_DEADLOCK FALSE
